@@ -81,6 +81,11 @@ pub fn obs_c03(o: &Ontology) -> V {
                 ln(&m),
                 ln(&r),
                 V::T(vec![n(dump::f32_bits(ic.gene())), n(dump::f32_bits(ic.omim_disease())), n(dump::f32_bits(ic.orpha_disease()))]),
+                V::T(vec![
+                    n(dump::f32_bits(ic.get_kind(&hpo::term::InformationContentKind::Gene))),
+                    n(dump::f32_bits(ic.get_kind(&hpo::term::InformationContentKind::Omim))),
+                    n(dump::f32_bits(ic.get_kind(&hpo::term::InformationContentKind::Orpha))),
+                ]),
             ])
         })
         .collect();
